@@ -97,10 +97,10 @@ func SharedOp(r *Rng, s *jsonapi.Schema, ts []stype, o *Out) string {
 // addBareTypes adds soft types whose maps are (partly) nil, as a hand-written
 // Type{Name: …} or one built with AddRel only has.
 func addBareTypes(r *Rng, s *jsonapi.Schema) {
-	_ = s.AddType(jsonapi.Type{Name: "bare"})
+	putType(s, jsonapi.Type{Name: "bare"})
 	onlyRels := jsonapi.Type{Name: "joins"}
-	_ = onlyRels.AddRel(jsonapi.Rel{FromType: "joins", FromName: "left", ToOne: true, ToType: "bare"})
-	_ = s.AddType(onlyRels)
+	putRel(&onlyRels, jsonapi.Rel{FromType: "joins", FromName: "left", ToOne: true, ToType: "bare"})
+	putType(s, onlyRels)
 }
 
 func suiteShared(r *Rng, n int, thorough bool, o *Out) {
